@@ -333,6 +333,30 @@ func scenarios(p *hs.PKI, cl class, w *hs.WireHello, specmin uint16, rot int, pr
 	defer func() {
 		for i := range sc {
 			sc[i].pin = pin
+			// A scripted selection (TLS 1.3 suite, certificate compression) hands the library's server sub-steps a doctored view
+			// of the ClientHello. If that configuration also leads to a HelloRetryRequest (the group the server picks has no key
+			// share), a HRR issued inside the library's processClientHello would compare the real second hello with the doctored
+			// first one ("client illegally modified second ClientHello": an artefact of the scripted server, not of the client).
+			// Such a HRR therefore goes through the scripted path as well, like the `hrr` rows: same message, traced.
+			if orig := sc[i].script; orig != nil {
+				cfgf := sc[i].cfg
+				sc[i].script = func(s *tls.VerifServerScript) {
+					orig(s)
+					if s.HRRGroup != 0 {
+						return
+					}
+					tmp := &tls.Config{}
+					if cfgf != nil {
+						cfgf(tmp)
+					}
+					if tmp.MaxVersion != 0 && tmp.MaxVersion < tls.VersionTLS13 {
+						return
+					}
+					if g := serverPick(w, tmp.CurvePreferences); g != 0 && !hs.ContainsU16(w.KeyShareGroups, g) {
+						s.HRRGroup = tls.CurveID(g)
+					}
+				}
+			}
 		}
 	}()
 	if v13 {
